@@ -115,7 +115,8 @@ def replay_segy(req, tmp):
             g, e = np.ascontiguousarray(got, dtype=np.float32).view(np.uint32), np.ascontiguousarray(exp, dtype=np.float32).view(np.uint32)
             return dict(reproduced=True, detail='%s: volume read back differs bitwise from the ZFP image of the edge-extended source at %d of %d samples (first %s)' % (
                 what, int(np.count_nonzero(g != e)), e.size, np.argwhere(g != e)[0].tolist()), extra=dict(outcome='values'))
-        return dict(reproduced=False, detail='%s: read-back is bit-identical to the ZFP image of the source' % what)
+        if prop != 'C11':      # (C11 goes on to compare headers, axes and counts of the windowed file)
+            return dict(reproduced=False, detail='%s: read-back is bit-identical to the ZFP image of the source' % what)
     if prop == 'C20':
         with open(sgz, 'rb') as f:
             f.seek(960)
